@@ -63,6 +63,7 @@ def minimise(pid, u, budget_s=120.0):
     def fails(scn):
         tests[0] += 1
         try:
+            core.gc_point()
             res = mod.execute(scn)
         except BaseException:
             return None
